@@ -72,7 +72,8 @@ Spelling styles
                   blanks, strings in double quotes where possible, ``.5`` for ``0.5``, explicit ASC, final ``;``
     2  commented  mIxEd case, a comment (``/* */`` or ``; ...<newline>``) between every two tokens, before
                   the first and after the last, integers with a leading zero
-    3  tight      as 0 but no blank wherever two adjacent tokens cannot fuse
+    3  tight      as 0 but no blank wherever two adjacent tokens cannot fuse (``2020-1-5`` stays tight,
+                  ``2020 -12-31`` gets the one blank that keeps the subtraction from reading as a date literal)
 ``salt`` rotates the separator / comment menus (any int; the structure of the text does not change).
 """
 import collections
@@ -616,11 +617,21 @@ def _needs_blank(a, b, ka, kb):
         return True
     if ka == 'op' and a == '%' and (y in 'sS('):     # a % s  is not the placeholder %s
         return True
-    if ka == 'op' and a == '-' and y.isdigit():      # 2020 - 01 - 01 is not a date: handled on both sides
-        return True
-    if kb == 'op' and b == '-' and x.isdigit():
-        return True
     return False
+
+
+def _date_lookalikes(words, kinds):
+    """Tight style: indexes i such that tokens i..i+4 are  NNNN - NN - NN...  (integer of exactly four digits,
+    minus, integer of exactly two digits, minus, integer of at least two digits).  Written without blanks that
+    subtraction chain would be read as the date literal YYYY-MM-DD, so a blank must follow token i.  Every other
+    chain of integer literals (2020-1-5, 2020-01-5 cannot arise, 12345-01-01, 999-01-01) is printed tight."""
+    out = set()
+    for i in range(len(words) - 4):
+        if (kinds[i] == 'int' and len(words[i]) == 4 and kinds[i + 1] in ('op', 'neg') and words[i + 1] == '-'
+                and kinds[i + 2] == 'int' and len(words[i + 2]) == 2 and kinds[i + 3] == 'op' and words[i + 3] == '-'
+                and kinds[i + 4] == 'int' and len(words[i + 4]) >= 2):
+            out.add(i)
+    return out
 
 
 def _plain_blank(a, b, ka, kb):
@@ -647,6 +658,7 @@ def render(toks, style=0, salt=0, ends=True):
     words = [_spell(t, style, i + salt) for i, t in enumerate(toks)]
     kinds = [t.kind for t in toks]
     out = []
+    lookalikes = _date_lookalikes(words, kinds) if style == 3 else ()
     if style == 2 and ends:
         out.append(_COMMENTS[salt % len(_COMMENTS)])
     for i, w in enumerate(words):
@@ -659,7 +671,7 @@ def render(toks, style=0, salt=0, ends=True):
             elif style == 2:
                 out.append(_COMMENTS[(i * 3 + salt + 1) % len(_COMMENTS)])
             else:
-                out.append(' ' if _needs_blank(a, w, ka, kb) else '')
+                out.append(' ' if (i - 1) in lookalikes or _needs_blank(a, w, ka, kb) else '')
         out.append(w)
     if not ends:
         pass
